@@ -1,5 +1,5 @@
 """C04 — table-level check (see harness/tablecheck.py and DESIGN.md §6 C04)."""
-from .. import tablecheck
+from .. import pipecheck, tablecheck
 
 PROP = 'C04'
 
@@ -11,8 +11,13 @@ def run(chk):
                 'table+message compared with the model and checked against the spec predicates; non-trivial = some '
                 'level reports something other than NCD; distinct by scene digest')
     tablecheck.run_tables(chk, PROP, n)
+    # end to end as well (crop-heavy: the high-cloud flag and the message depend on what construction cropped)
+    pipecheck.run_pipeline(chk, PROP, n // 2, families=(('crop', 0.4), ('synth', 0.3), ('multi', 0.15), ('exact', 0.15)))
     return None
 
 
 def replay(chk, obj):
+    case = obj.get('case') or (obj.get('broken_correspondence') or [{}])[0].get('case')
+    if case and 'which' not in case and case.get('gen', {}).get('family') in ('crop',) + tuple(f for f, _ in pipecheck.FAMILIES):
+        return pipecheck.replay_scene(chk, obj, PROP)
     return tablecheck.replay_scene(chk, obj, PROP)
